@@ -52,6 +52,9 @@ var keyKindsB = []keyKindB{
 	{"arrzs", "[2]zsTail", "return [2]zsTail{{A: int64(ki)}, {A: int64(-ki)}}"}, // array of structs that end in a zero-size field
 	{"arr1f64", "[1]float64", "return [1]float64{f64Of(ki)}"},                                                                                                 // small arrays of floats: +0 == -0, NaN != NaN
 	{"arr2f32", "[2]float32", "a := float32(f64Of(ki % 6))\n\tif ki%6 == 5 {\n\t\ta = float32(ki)\n\t}\n\treturn [2]float32{a, float32(ki / 6)}"},
+	// a non-empty interface type as key (hashed and compared through the method table, not the type word):
+	// struct, string, pointer-receiver (also a typed nil pointer) and integer dynamic types
+	{"ifacem", "keyI", "switch ki % 4 {\n\tcase 0:\n\t\treturn imT{int32(ki), strKey(\"m\", ki)}\n\tcase 1:\n\t\treturn imS(strKey(\"i\", ki))\n\tcase 2:\n\t\tif ki == 10 {\n\t\t\treturn (*imP)(nil)\n\t\t}\n\t\treturn &pcells[ki%4096]\n\t}\n\treturn imN(ki) * 17"},
 	{"k128", "[16]int64", "var k [16]int64\n\tk[0], k[15] = int64(ki), int64(-ki)\n\treturn k"}, // exactly the inline limit
 }
 
@@ -115,6 +118,32 @@ type zsTail struct {
 	A int64
 	Z struct{}
 }
+
+type keyI interface{ M() int }
+
+type imT struct {
+	a int32
+	s string
+}
+
+func (t imT) M() int { return int(t.a) }
+
+type imS string
+
+func (s imS) M() int { return len(s) }
+
+type imP struct {
+	v int64
+	w [3]int64
+}
+
+func (p *imP) M() int { return int(p.v) }
+
+type imN int64
+
+func (n imN) M() int { return int(n) }
+
+var pcells [4096]imP
 
 var chans = func() (c [4096]chan int) {
 	for i := range c {
@@ -348,6 +377,9 @@ func exec_@C(cur int, pool int) int {
 			// the objects that pointer keys point to change; the keys do not
 			cells[a%4096] += 7
 			cells[(a+1)%4096]--
+			for d := 0; d < 4; d++ {
+				pcells[(a+d)%4096].v += int64(3 + d)
+			}
 			println("K", opi)
 		case 14:
 			setzero_@C(a)
